@@ -542,8 +542,11 @@ class Node(object):
             None
         """
         self._children.remove(child)
+        child.parent = None
 
     def remove_children(self):
+        for child in self._children:
+            child.parent = None
         self._children = []
 
     def remove_namespace(self, prefix: str, nsmap_id: int = None) -> None:
@@ -576,8 +579,10 @@ class Node(object):
             msg = f'Child type "{new_child.name}" and "{old_child.name}" mismatch'
             raise ValueError(msg)
 
+        index = self._children.index(old_child)
         new_child.parent = self
-        self._children[self._children.index(old_child)] = new_child
+        self._children[index] = new_child
+        old_child.parent = None
         if delete_old:
             Node.delete_node_instance(id=old_child.id)
 
